@@ -437,7 +437,7 @@ func TestVerifC05MCQ(t *testing.T) {
 		c := &c05Case{Kind: "mcq", MCQ: rapid.IntRange(1, 3).Draw(rt, "mcq")}
 		c.Key = fmt.Sprintf("s%d", rapid.IntRange(0, 1000).Draw(rt, "salt"))
 		v, nt, inc := runC05(c)
-		if inc {
+		if inc || (v != nil && vFlapsSinceMark() > 0) {
 			col.Inconclusive()
 			return
 		}
